@@ -114,6 +114,10 @@ func (cw *c16World) acct(n string) *world.Acct {
 		return cw.A
 	case "B":
 		return cw.B
+	case "T1":
+		return c16T1
+	case "T2":
+		return c16T2
 	}
 	panic("acct " + n)
 }
@@ -673,7 +677,9 @@ type c16Route struct {
 	Proven  []string `json:"proven"`  // proof submissions sent by R in earlier blocks: "account" (signed by that key) or "account/signature variant" (address expression / variant of c16Op.Sig)
 	Msg     string   `json:"msg"`     // vesting | periodic | permanent
 	Target  string   `json:"target"`  // address expression
-	Routing string   `json:"routing"` // top | exec1..exec5 | grant | beside-send
+	Routing string   `json:"routing"` // top | exec1..exec5 | grant | beside-send | multi
+	// Multi (routing "multi", c16_multi.go): the top-level messages of the ONE transaction; Msg and Target are unused
+	Multi []c16MultiMsg `json:"multi,omitempty"`
 }
 
 func (cw *c16World) vestingMsg(kind string, from *world.Acct, to sdk.AccAddress) sdk.Msg {
@@ -767,6 +773,9 @@ func c16RunRoute(c c16Route) (fs []ev.Finding, outcome string) {
 		cw.observeProofs(stored, nil, w.Ctx(), func(f string, a ...interface{}) {
 			fail("proof-store-matches-reference", fmt.Sprintf("after %s: ", desc)+fmt.Sprintf(f, a...))
 		})
+	}
+	if len(c.Multi) > 0 {
+		return fs, c16RunMulti(cw, c, stored, accNumR, seq, fee, failS)
 	}
 	target := cw.addr(c.Target)
 	inner := cw.vestingMsg(c.Msg, cw.R, target)
@@ -1089,6 +1098,8 @@ func runC16(replay string) int {
 		})
 	}
 	routes := append(c16Routes(run.Thorough()), c16ShapeRoutes(run.Thorough())...)
+	multiRoutes := c16MultiRoutes(run.Thorough())
+	routes = append(routes, multiRoutes...)
 	type pass struct {
 		name      string
 		alpha     []c16Op
@@ -1125,12 +1136,19 @@ func runC16(replay string) int {
 			}
 			run.Count("transitions", int64(len(c.Proven)+1))
 			run.Count("routing_cases", 1)
-			tl := fmt.Sprintf("len%d", len(c16AddrLen(c.Target)))
-			if _, sp := c16Special(c.Target); sp {
-				tl = c.Target
+			if len(c.Multi) > 0 {
+				run.Count("multi_message_cases", 1)
+				run.Count("multi_message/"+c16MultiShape(c)+"/"+oc, 1)
+				run.Outcome(fmt.Sprintf("route/multi/%s/%s", c16MultiShape(c), oc))
+				run.Distinct(fmt.Sprintf("route:%v:%s:%s", c.Proven, c16MultiString(c.Multi), oc))
+			} else {
+				tl := fmt.Sprintf("len%d", len(c16AddrLen(c.Target)))
+				if _, sp := c16Special(c.Target); sp {
+					tl = c.Target
+				}
+				run.Outcome(fmt.Sprintf("route/%s/%s/%s", c.Routing, tl, oc))
+				run.Distinct(fmt.Sprintf("route:%v:%s:%s:%s:%s", c.Proven, c.Msg, c.Target, c.Routing, oc))
 			}
-			run.Outcome(fmt.Sprintf("route/%s/%s/%s", c.Routing, tl, oc))
-			run.Distinct(fmt.Sprintf("route:%v:%s:%s:%s:%s", c.Proven, c.Msg, c.Target, c.Routing, oc))
 			if i%(len(routes)/2+1) == 0 {
 				run.Sample(map[string]interface{}{"route": c, "outcome": oc})
 			}
@@ -1153,8 +1171,8 @@ func runC16(replay string) int {
 	run.Coverage["rule"] = fmt.Sprintf("addresses are expressions over the keys A, B (provable), R, E, P (submitters): the 20-byte key address, the special 20-byte addresses no key controls (zero address, 0x..01 = ecrecover precompile, 0xff..ff, the vauth and fee collector module accounts), and 32-, 40- and 19-byte addresses built to collide with them on their first or last 20 (19) bytes (X||pad, pad||X, X||zeros, zeros||X, victim||attacker, attacker||victim, X[:19], X[1:]); %d of them are observed (HasProof, GetProof record, raw store keys, ante decorator) on every reached state. "+
 		"part 1: BFS over branch states with the submission alphabets %sops = submitter {rich, exactly-the-fee, one-short, funded 32-byte A||pad (3 fees), funded 32-byte pad||B (1 fee)} × account {A, B, submitter itself, the colliding non-20-byte addresses; A and B also under the upper-case spelling of the bech32 address} × signature variants {A's, B's (thorough alphabet: R's, the submitter's), upper-case hex, 64/66 bytes, empty, garbage, (r,n−s,v⊕1) malleated, signed other message, v+27}; the quick alphabet crosses the non-20-byte accounts with signatures {A's, B's, garbage} and the non-20-byte submitters with {A's, B's} only, the thorough alphabet is the full product; "+
 		"family ops (applied to every state of depth < the family depth): signature shapes = the variants above + {1 byte, 64-byte EIP-2098 compact form, zero byte || signature} + 65-byte R||S||V with (R,S) in {A's genuine (r,s), R=0, S=0, R=S=0, R=n, R=n-1, S=n, S=n-s (high), all 0xff; thorough: R=n+1, R=p, R=1, S=n-1, S=n+1, S=1} × V in {0,1,2,27,28,29,255; thorough: 3,4,26,30,31,35,36,128,254} (%d shapes quick, %d thorough), crossed in the quick alphabet with account {A, zero address, 0x..01, vauth module account, 0xff..ff, the submitter itself} for the rich submitter and with {A, zero address} for the exactly-the-fee and one-short submitters, in the thorough alphabet with account {A, B, zero, 0x..01, vauth module, fee collector, 0xff..ff, submitter itself} × all 5 submitters; a state in which a family op stored a proof the reference forbids is reported, observed and not expanded; reference state (stored records as exact byte strings, balances) as state identity cross-checked with the full store hash, every transition compared with the reference, and the real vesting ante decorator run on every reached state for 3 message kinds × every observed address; "+
-		"part 2: %d complete-transaction cases (proof submissions in earlier blocks {∅,{A},{A,B}, victim||attacker signed by the attacker, attacker||victim signed by the attacker, pad||A signed by A after A, A||pad signed by A; thorough: 7 more; quick: routings other than top / exec1 / grant with 4 of the 7} × 3 vesting-creation messages × target {A, B and the colliding 32/40-byte (thorough: also zero-padded and 19-byte) addresses} × routing {top level, MsgExec nested 1..5 with grantee = granter, MsgGrant, the nested message / the grant listed after a harmless MsgExec or MsgSend, or after a harmless MsgExec inside an outer MsgExec}; plus the widened dimensions: every signature shape offered by R for the zero address in an earlier block then each message kind with the zero address as top-level target; 11 representative shapes (unrecoverable classes, garbage, empty, A's genuine signature) offered for each special address then that address as target over the routings {top, exec1, grant, sib-exec1; thorough: all 14}; the special addresses as targets with no submission and after genuine proofs of A and B; A's genuine proof before / after a shape offered for the zero address, and the V=0/1/27 and R=S=0 shapes offered for A itself) through FinalizeBlock",
-		len(c16Universe()), desc, len(c16Shapes(false)), len(c16Shapes(true)), len(routes))
+		"part 2: %d complete-transaction cases (proof submissions in earlier blocks {∅,{A},{A,B}, victim||attacker signed by the attacker, attacker||victim signed by the attacker, pad||A signed by A after A, A||pad signed by A; thorough: 7 more; quick: routings other than top / exec1 / grant with 4 of the 7} × 3 vesting-creation messages × target {A, B and the colliding 32/40-byte (thorough: also zero-padded and 19-byte) addresses} × routing {top level, MsgExec nested 1..5 with grantee = granter, MsgGrant, the nested message / the grant listed after a harmless MsgExec or MsgSend, or after a harmless MsgExec inside an outer MsgExec}; plus the widened dimensions: every signature shape offered by R for the zero address in an earlier block then each message kind with the zero address as top-level target; 11 representative shapes (unrecoverable classes, garbage, empty, A's genuine signature) offered for each special address then that address as target over the routings {top, exec1, grant, sib-exec1; thorough: all 14}; the special addresses as targets with no submission and after genuine proofs of A and B; A's genuine proof before / after a shape offered for the zero address, and the V=0/1/27 and R=S=0 shapes offered for A itself; plus %d multi-message cases: ONE transaction by R with several top-level messages after the proof history {A, B}: [v1→x, v2→y], [MsgSend, v→x], [v1→x, MsgSend, v2→y] over message kind v ∈ 3 kinds × recipient x, y ∈ {proven A, proven B, unproven fresh keys T1, T2} in every order (same recipient twice included); thorough: also [v1→x, v2→y, v3→z] (3³ kinds × 4³ recipients), the MsgSend first / last beside two vesting messages, recipients {A, pad||A, zero address, B}, and the history {A} with recipients {A, B, T1}; reference per case: accepted only if every vesting target has a proof for exactly its bytes, a refused transaction creates no vesting account, writes no account-store entry other than the signer's and moves no balance but the fee, an accepted one creates exactly the accounts (kind, 1000 each) for its targets) through FinalizeBlock",
+		len(c16Universe()), desc, len(c16Shapes(false)), len(c16Shapes(true)), len(routes)-len(multiRoutes), len(multiRoutes))
 	return run.Finish()
 }
 
